@@ -93,11 +93,11 @@ def op_boxes(op, sp, gm):
             pos = [(i, i - d) for i in range(nI) if 0 <= i - d < nX]
         else:
             pos = [(i, d - i) for i in range(nI) if 0 <= d - i < nX]
-        if len(a) >= 3 and a[1] is not None and a[2] is not None:
-            pos = pos[a[1]:a[2]]
-        z = (0, nZ)
-        if len(a) >= 5 and a[3] is not None and a[4] is not None:
-            z = (a[3], a[4])
+        # (a bound given on its own is a window too: the other end is the end of the diagonal / of the trace)
+        lo_ = a[1] if len(a) > 1 and a[1] is not None else 0
+        hi_ = a[2] if len(a) > 2 and a[2] is not None else len(pos)
+        pos = pos[lo_:hi_]
+        z = (a[3] if len(a) > 3 and a[3] is not None else 0, a[4] if len(a) > 4 and a[4] is not None else nZ)
         return [((i, i + 1), (x, x + 1), z) for i, x in pos]
     return []
 
